@@ -627,6 +627,8 @@ def replay_rows(table_path, l, j, build=None):
         h["build"] = build
     if k == "un":
         r = {"k": "un", "f": row["f"], "base": row["base"] + c, "n": 1}
+        if "cr" in row:
+            r["cr"] = row["cr"]
     elif k in ("bin", "nt"):
         h["S"] = [hdr_row["S"][c]]
         r = {"k": k, "f": row["f"], "a": row["a"]}
@@ -635,6 +637,8 @@ def replay_rows(table_path, l, j, build=None):
         r = {"k": k, "f": row["f"], "a": row["a"]}
     else:
         r = {"k": k, "f": row["f"]}
+        if "cr" in row:
+            r["cr"] = row["cr"]
         for key in ("hi", "lo", "w3", "w2", "w1", "w0", "x", "y", "z", "t"):
             if key in row:
                 r[key] = [row[key][c]]
@@ -669,6 +673,8 @@ def diff_recordings(t_a, t_b):
                         continue
                     if k == "un":
                         nan = _isnan16(a["base"] + c)
+                    elif k == "ux":
+                        nan = _isnan16(a["x"][c])
                     elif k in ("bin", "nt"):
                         nan = _isnan16(a["a"]) or _isnan16(S[c])
                     elif k == "ld":
@@ -774,6 +780,9 @@ def validate_jobs(ctx, jobs, drivers, parallel=None, workers=None, what="C08"):
                 r = core.tlc(ctx, "HalfCheck", "HalfCheck.cfg", name="chk-%s-%s" % (job.name, tag), workers=workers,
                              env={"TABLE": t["path"]}, heap="5g", timeout=3000)
                 res.setdefault("tlc", []).append({"build": tag, "states": r["distinct"], "wall_s": r["wall_s"]})
+                und = sorted(set(re.findall(r'<<"UNDECIDED", "(\w+)", (\d+)', r["out"])))
+                if und:
+                    res.setdefault("undecided", []).extend([{"f": f, "x": int(x), "build": tag} for f, x in und])
                 if r["violated"]:
                     ce = parse_counterexample(r["out"])
                     if ce is None:
